@@ -19,6 +19,8 @@ class GaussianModel:
         self.geographic_unit_type = model_settings.get("geographic_unit_type")
         self.winsorize = model_settings.get("winsorize", False)
         self.beta = model_settings.get("beta", 1)
+        # same default as BaseElectionModel, so that the bootstrapped sigmas are a function of the seed setting
+        self.seed = model_settings.get("seed", 4191)
 
     def _empty_gaussian_model(self, conformalization_data, aggregate):
         """
@@ -108,9 +110,13 @@ class GaussianModel:
                             ).to_numpy(),
                         ),
                         "sigma_lower_bound": self.beta
-                        * math_utils.boot_sigma(x.lower_bounds.values, conf=(3 + alpha) / 4, winsorize=self.winsorize),
+                        * math_utils.boot_sigma(
+                            x.lower_bounds.values, conf=(3 + alpha) / 4, winsorize=self.winsorize, seed=self.seed
+                        ),
                         "sigma_upper_bound": self.beta
-                        * math_utils.boot_sigma(x.upper_bounds.values, conf=(3 + alpha) / 4, winsorize=self.winsorize),
+                        * math_utils.boot_sigma(
+                            x.upper_bounds.values, conf=(3 + alpha) / 4, winsorize=self.winsorize, seed=self.seed
+                        ),
                     }
                 ),
                 include_groups=False,
